@@ -203,31 +203,42 @@ def edges_where(db, fn, pred):
 
 # ---------------------------------------------------------------- path rules
 def dom_check(db, fn, effect_blocks, pred):
-    """Every path entry -> effect passes an edge implying pred.
+    """Every (feasible) path entry -> effect passes an edge implying pred.
     Returns (ok, allow_edges, offending {effect_bb: path})."""
     g = graph(fn)
     allow = edges_where(db, fn, pred)
-    reach = g.reach([0], avoid_edges=allow)
+    blocks = g.reach_k([(0, frozenset())], avoid_edges=allow)
     bad = {}
     for e in effect_blocks:
-        if e in reach:
-            bad[e] = g.path(0, e, avoid_edges=allow)
+        if e in blocks:
+            bad[e] = g.path_k(blocks, e)
     return (not bad), allow, bad
 
 
 def excl_check(db, fn, effect_blocks, deny_pred, reeval_blocks=()):
-    """No path from an edge implying deny_pred reaches an effect block without
-    re-passing reeval_blocks.  Returns (ok, deny_edges, offending)."""
+    """No (feasible) path from an edge implying deny_pred reaches an effect block
+    without re-passing reeval_blocks.  Returns (ok, deny_edges, offending)."""
     g = graph(fn)
     deny = edges_where(db, fn, deny_pred)
     bad = {}
+    g.reach_k([(0, frozenset())])
+    entry_states = list(g._last_seen.keys())
     for (bb, tb, lab) in deny:
         if tb in reeval_blocks:
             continue
-        reach = g.reach([tb], avoid_blocks=reeval_blocks)
+        starts = []
+        for (b0, know) in entry_states:
+            if b0 != bb:
+                continue
+            k = g.edge_know(bb, tb, lab, know)
+            if k is not None:      # the deny edge itself is feasible in this state
+                starts.append((tb, k))
+        if not starts:
+            continue
+        blocks = g.reach_k(starts, avoid_blocks=reeval_blocks)
         for e in effect_blocks:
-            if e in reach:
-                bad[(bb, tb, e)] = g.path(tb, e, avoid_blocks=reeval_blocks)
+            if e in blocks:
+                bad[(bb, tb, e)] = [bb] + g.path_k(blocks, e)
     return (not bad), deny, bad
 
 
